@@ -442,12 +442,25 @@ func main() {
 	})
 	runOne := func(id int, corr bool) {
 		c := genCase(root.Fork(uint64(id)), id)
+		if id >= 1 { // driving modes the model cannot see: caller-owned containers, a reload in progress
+			kit.Decorate(root.Fork(uint64(id)).Fork(0xDEC0), &c)
+		}
 		cur = c
 		kit.Beat()
 		clk.SetMs(clk0)
 		obs, finals, corrupt := kit.Run("c06", c, clk)
 		rep.Evaluations++
 		mr := monitor(c, obs, finals, corrupt, rep)
+		for _, is := range kit.LastIssues {
+			failOnce(rep, c, "C06_decision", is.Sig, is.Detail)
+		}
+		if c.Reuse {
+			rep.Count("cases_caller_reuses_arg_slice_and_attachment_map", 1)
+		}
+		if c.Reload != nil {
+			rep.Count("cases_with_reload_in_progress", 1)
+			rep.Count("ops_decided_inside_a_reload", c.Reload.N)
+		}
 		if mr.nontrivial {
 			b, _ := json.Marshal(c)
 			dist.Add(string(b))
@@ -498,6 +511,14 @@ func main() {
 			fmt.Println(string(out))
 		}
 	}
+	if a.Only >= parBase {
+		cur = kit.Case{ID: a.Only}
+		runPar(genPar(root.Fork(uint64(a.Only)), a.Only-parBase), rep)
+		for _, f := range rep.MonitorFailures {
+			fmt.Printf("MONITOR-FAIL clause=%s signature=%s %s\n", f.Clause, f.Signature, f.Detail)
+		}
+		return
+	}
 	if a.Only >= schedBase {
 		cur = kit.Case{ID: a.Only}
 		runSched(genSched(root.Fork(uint64(a.Only)), a.Only-schedBase), rep)
@@ -527,6 +548,15 @@ func main() {
 		runSched(genSched(root.Fork(uint64(schedBase+i)), i), rep)
 		rep.Evaluations++
 		rep.Count("extra_two_phase_schedules", 1)
+	}
+	// monitor-only search leg: real goroutines, facts that hold under every schedule (par.go)
+	nPar := a.Pick(0, 3, 12)
+	for i := 0; i < nPar; i++ {
+		cur = kit.Case{ID: parBase + i}
+		kit.Beat()
+		runPar(genPar(root.Fork(uint64(parBase+i)), i), rep)
+		rep.Evaluations++
+		rep.Count("extra_real_thread_configurations", 1)
 	}
 	rep.DistinctNontrivial = dist.N()
 	rep.Consts["hotspot.ConcurrencyMaxCount"] = hotspot.ConcurrencyMaxCount
